@@ -59,6 +59,10 @@ claim("C15", "value provenance / taint (query-free operand) + path-sensitive pre
       "Structural necessary condition for all requests/rule sets: the string matched by skip-auth regexes is query- and fragment-free on every path; method/path predicates and negate wired exactly; preflight needs flag && OPTIONS; trusted-IP verdict only as NetSet.Has(GetClientIP result); NetSet inserts into the same-mask map it looks up, keyed identically; host-bit CIDRs rejected. Level 'other'.",
       TRUST + " Not decided: regex engine, CIDR arithmetic over all addresses, net.IP normalisation.", "DESIGN.md §5 C15")
 
+claim("C16", "closed-world enumeration of request-header reads + guard dominance on SSA paths + field writer/reader sets",
+      "Structural necessary condition of non-interference (absence of a dependence path), for all requests/configurations: forwarding-header names are read only inside the three IsProxied-guarded accessors, their value is returned only under IsProxied==true, the flag has one writer fed from configuration, the client-IP parser exists only in reverse-proxy mode and reads its one configured header. Level 'other'.",
+      TRUST + " Not decided: pairwise equality of whole responses (relational over values).", "DESIGN.md §5 C16")
+
 for i in range(2, 21):
     pid = "C%02d" % i
     if pid not in T:
